@@ -5,14 +5,29 @@ what a complete, well-formed control sequence with *symbolic* decimal parameters
 ground state.  Core Lean only.
 
 * `feed_append`, `feed_nil`, `feed_cons`
-* grid algebra: `Grid.get_set_same`, `Grid.get_set_other`, `Grid.get_set`, `Grid.get_fill`, `Grid.get_build`, sizes
-* decimal parameters: `dec` (= `Tcell.Dec.showDec`), `parseNat_dec`, `parseParams_*`
-* `feed_csi_plain`: `ESC [ body final` with a numeric body in the ground state = `dispatchPlain` on the parsed parameters
-* `cup_effect`, `cup_home_effect`
-* `sgr_reset_effect`, `sgr0_effect`, `sgr_fg_idx_effect` / `sgr_bg_idx_effect` (30–37/40–47, 90–97/100–107, 38;5;n / 48;5;n,
-  38:5:n), `sgr_fg_rgb_effect` / `sgr_bg_rgb_effect` (`;` form), `sgr_fg_rgb_colon_effect`
-* `print_narrow_effect`, `print_narrow_cells`
-* `ed2_effect`, `ed2_cells`
+* grid algebra: `Grid.get_set_same`, `Grid.get_set_other`, `Grid.get_set`, `Grid.get_fill`, `Grid.get_build`, `Grid.clobber_noop`
+* decimal parameters: `dec` (= `Tcell.Dec.showDec`), `parseNat_dec`, `parseNum_dec`, `dec_lt10`, `dec_append_digit`,
+  `splitBy_*`, `parseParam_cons/last/dec`, `parseParams_cons/last/append`
+* lexing: `feed_csi` (`ESC [ body final` = `dispatchCsi`), `feed_csi_plain` (numeric body = `dispatchPlain` on the parsed
+  parameters), `parseCsiBody_numeric/private`, `feed_osc_st`, `feed_osc_bel` (= `dispatchOsc` on the payload)
+* cursor: `cup_effect` (∀ r c), `cup_home_effect`
+* SGR: `sgr_reset_effect`, `sgr0_effect`, `sgr_single`, `sgr_fg_idx_effect` / `sgr_bg_idx_effect` (30–37 / 40–47),
+  `sgr_fg_bright_effect` / `sgr_bg_bright_effect` (90–97 / 100–107), `sgr_ext_idx_effect` (38/48/58 ; 5 ; n) with
+  `sgr_fg_256_effect` / `sgr_bg_256_effect`, `sgr_ext_rgb_effect` (38/48/58 ; 2 ; r ; g ; b) with `sgr_fg_rgb_effect` /
+  `sgr_bg_rgb_effect`, colon forms `sgr_colon_idx_effect` (w:5:n), `sgr_colon_rgb_effect` (w:2::r:g:b),
+  `sgr_ul_style_effect` (4:s); composition: `applySgr_step`, `applySgr_fuel`, `sgr_cons`, `sgr_cons_ext5`,
+  `sgr_cons_ext2`, `sgr_two_effect` (`ESC [ a ; b m` = the two SGRs in sequence)
+* SGR frame: `sgr_frame` (SGR changes only pen – never its hyperlink –, `penKnown`, font selection, complaints), `sgr_st`
+* modes: `decset_effect`, `decrst_effect` (∀ n: = `decMode n on`), `decMode_st`
+* OSC 8: `osc8_open_effect`, `osc8_close_effect`
+* printing: `print_narrow_effect`, `print_narrow_cells`, `print_last_col_effect` (ASCII bytes through `feedByte`);
+  `feed_utf8Enc` (the UTF-8 bytes of any scalar value ≥ 0x80 = `printCp`), `putNarrow_effect`, `putWide_effect`,
+  `putCombining_effect` (glyph level, any code point)
+* erase: `ed2_effect`, `ed2_cells`, `clear_effect` (`ESC [ H ESC [ 2 J`)
+
+How to derive the effect of another fixed capability string on a symbolic terminal `t` with `t.st = .ground`: cut it into
+complete sequences with `feed_append`, use `feed_csi_plain` / `feed_csi` / `feed_osc_st` with the concrete body (the
+parse facts are closed terms: `by decide`), then `simp [dispatchPlain, …]`; see `sgr0_effect`, `ed2_effect`, `clear_effect`.
 -/
 namespace Tcell.Spec.Ecma48
 
@@ -507,7 +522,11 @@ theorem print_narrow_effect (t : Term) (b : Nat) (hst : t.st = .ground) (hb : 0x
     (hk : t.cursorKnown = true) (hpw : t.pendingWrap = false) (hirm : t.modes.insertMode = false)
     (hx : t.cx + 1 < t.w)
     (hc0 : (t.get t.cx t.cy).cont = false) (hc1 : (t.get (t.cx + 1) t.cy).cont = false) :
-    t.feedByte b = { t with grid := t.grid.set t.cx t.cy (t.glyphCell b), cx := t.cx + 1 } := by
+    t.feedByte b =
+      { t with
+        grid := t.grid.set t.cx t.cy (t.glyphCell b)
+        cx := t.cx + 1
+        last := some (t.cx, t.cy, t.cx + 1, t.cy, false) } := by
   have hwd : t.widthOf (b : Int) = 1 := by
     unfold widthOf
     cases hu : t.cfg.utf8 with
@@ -517,8 +536,9 @@ theorem print_narrow_effect (t : Term) (b : Nat) (hst : t.st = .ground) (hb : 0x
   have h2 : b ≠ 0x7f := by omega
   have h3 : b < 0x80 := by omega
   have hcl : t.grid.clobber t.blocks t.cx t.cy = t.grid := Grid.clobber_noop _ _ _ _ hc0 hc1
+  have hxg : t.cx + 1 < t.grid.w := hx
   simp [feedByte, hst, feedGround, h1, h2, h3, printByte, hfont, hacs, hwd, putGlyph, putNarrow, hk, doWrap, hpw, hirm,
-    putNarrowAt, hcl, hx]
+    putNarrowAt, hcl, hxg]
 
 /-- cell-level reading of `print_narrow_effect` -/
 theorem print_narrow_cells (t : Term) (b : Nat) (hst : t.st = .ground) (hb : 0x20 ≤ b ∧ b < 0x7f)
@@ -572,6 +592,697 @@ example : let t := Term.init { w := 4, h := 2 }
     t.st = .ground ∧ t.modes.altFont = 0 ∧ acsActive t.modes = false ∧ t.cursorKnown = true ∧ t.pendingWrap = false ∧
     t.modes.insertMode = false ∧ t.cx + 1 < t.w ∧ t.cy < t.h ∧ (t.get t.cx t.cy).cont = false ∧ (t.get (t.cx + 1) t.cy).cont = false := by
   decide
+
+end Term
+
+/-! ## composition of parameter lists and of SGR -/
+
+open Term
+
+theorem splitBy_ne_nil (sep : Nat) (a : List Nat) : splitBy sep a ≠ [] := by
+  cases a with
+  | nil => simp [splitBy]
+  | cons b bs =>
+    unfold splitBy
+    split
+    · simp
+    · split <;> simp
+
+theorem splitBy_append (sep : Nat) (a b : List Nat) :
+    splitBy sep (a ++ sep :: b) = splitBy sep a ++ splitBy sep b := by
+  induction a with
+  | nil => simp [splitBy]
+  | cons x xs ih =>
+    by_cases hx : x = sep
+    · simp [splitBy, hx, ih]
+    · have hne := splitBy_ne_nil sep xs
+      cases hs : splitBy sep xs with
+      | nil => exact absurd hs hne
+      | cons p ps => simp [splitBy, hx, ih, hs]
+
+theorem allSome_append {α : Type} (l1 l2 : List (Option α)) :
+    allSome (l1 ++ l2) = (allSome l1).bind fun a => (allSome l2).map (a ++ ·) := by
+  induction l1 with
+  | nil => cases h : allSome l2 <;> simp [h]
+  | cons x xs ih =>
+    cases x with
+    | none => simp
+    | some v =>
+      simp only [List.cons_append, allSome_cons_some, ih]
+      cases allSome xs <;> simp
+      cases allSome l2 <;> simp
+
+/-- parameter lists of `a ; b` are those of `a` followed by those of `b` -/
+theorem parseParams_append (a b : List Nat) (pa pb : List Param)
+    (ha : parseParams a = some pa) (hb : parseParams b = some pb) :
+    parseParams (a ++ 0x3b :: b) = some (pa ++ pb) := by
+  rw [parseParams_eq] at ha hb ⊢
+  rw [splitBy_append, List.map_append, allSome_append, ha, hb]
+  rfl
+
+/-- rendering of small numbers -/
+theorem dec_lt10 (n : Nat) (h : n < 10) : dec n = [48 + n] := by
+  show showDec n = _
+  rw [showDec_eq]; simp [h]
+
+theorem dec_append_digit (a d : Nat) (ha : 0 < a) (hd : d < 10) : dec (a * 10 + d) = dec a ++ [48 + d] := by
+  show showDec (a * 10 + d) = showDec a ++ _
+  rw [showDec_eq]
+  have h1 : ¬ (a * 10 + d < 10) := by omega
+  have h2 : (a * 10 + d) / 10 = a := by omega
+  have h3 : (a * 10 + d) % 10 = d := by omega
+  simp [h1, h2, h3]
+
+namespace Term
+
+/-- the written-out recursion of `applySgr` is `sgrStep` with the recursive call as continuation -/
+theorem applySgr_step (f : Nat) (p : Param) (rest : List Param) (t : Term) :
+    applySgr (f + 1) (p :: rest) t = sgrStep (applySgr f) p rest t := by
+  match p with
+  | [] => rfl
+  | [none] => rfl
+  | [some n] => rfl
+  | some n :: s :: subs => rfl
+  | none :: s :: subs => rfl
+
+/-- `sgrStep` only calls its continuation on `rest` or on a suffix of it -/
+theorem sgrStep_congr (k k' : List Param → Term → Term) (p : Param) (rest : List Param) (t : Term)
+    (h : ∀ r2 t', r2.length ≤ rest.length → k r2 t' = k' r2 t') : sgrStep k p rest t = sgrStep k' p rest t := by
+  have R : ∀ t', k rest t' = k' rest t' := fun t' => h rest t' (Nat.le_refl _)
+  unfold sgrStep
+  split
+  · exact R _
+  · exact R _
+  · split
+    · split
+      · split <;> exact h _ _ (by simp only [List.length_cons]; omega)
+      · split <;> exact h _ _ (by simp only [List.length_cons]; omega)
+      · rfl
+    · split
+      · exact R _
+      · split
+        · exact R _
+        · split <;> exact R _
+  · split
+    · split
+      · split <;> exact R _
+      · exact R _
+    · split
+      · split
+        · split <;> exact R _
+        · exact R _
+      · exact R _
+  · exact R _
+
+/-- more fuel than parameters changes nothing -/
+theorem applySgr_fuel : ∀ (f g : Nat) (ps : List Param) (t : Term), ps.length ≤ f → ps.length ≤ g →
+    applySgr f ps t = applySgr g ps t := by
+  intro f
+  induction f with
+  | zero =>
+    intro g ps t hf _
+    have : ps = [] := List.eq_nil_of_length_eq_zero (by omega)
+    subst this
+    cases g <;> rfl
+  | succ f ih =>
+    intro g ps t hf hg
+    cases ps with
+    | nil => cases g <;> rfl
+    | cons p rest =>
+      cases g with
+      | zero => simp at hg
+      | succ g =>
+        have hf' : rest.length ≤ f := by simpa using hf
+        have hg' : rest.length ≤ g := by simpa using hg
+        rw [applySgr_step, applySgr_step]
+        exact sgrStep_congr _ _ _ _ _ (fun r2 t' h => ih g r2 t' (by omega) (by omega))
+
+/-- a parameter that does not start a `;`-form extended colour: do it, then continue -/
+theorem sgrStep_split (k : List Param → Term → Term) (p : Param) (rest : List Param) (t : Term)
+    (hp : p ≠ [some 38] ∧ p ≠ [some 48] ∧ p ≠ [some 58]) :
+    sgrStep k p rest t = k rest (sgrStep (fun _ t => t) p [] t) := by
+  unfold sgrStep
+  split
+  · rfl
+  · rfl
+  · rename_i n
+    have hn : ¬ (n = 38 ∨ n = 48 ∨ n = 58) := by
+      intro h
+      rcases h with h | h | h <;> subst h <;> simp at hp
+    simp only [hn, if_false]
+    split
+    · rfl
+    · split
+      · rfl
+      · split <;> rfl
+  · split
+    · split
+      · split <;> rfl
+      · rfl
+    · split
+      · split
+        · split <;> rfl
+        · rfl
+      · rfl
+  · rfl
+
+/-- a parameter that is not the start of a `;`-form extended colour is processed on its own -/
+theorem sgr_cons (t : Term) (p : Param) (rest : List Param)
+    (hp : p ≠ [some 38] ∧ p ≠ [some 48] ∧ p ≠ [some 58]) :
+    t.sgr (p :: rest) = (t.sgr [p]).sgr rest := by
+  unfold sgr
+  simp only [List.length_cons, List.length_nil]
+  rw [applySgr_step, applySgr_step, sgrStep_split _ p rest t hp, sgrStep_split (applySgr 0) p [] t hp]
+  rfl
+
+/-- `38;5;n` (48, 58 alike) inside a longer parameter list -/
+theorem sgr_cons_ext5 (t : Term) (which n : Nat) (rest : List Param)
+    (hw : which = 38 ∨ which = 48 ∨ which = 58) (hn : n ≤ 255) :
+    t.sgr ([some which] :: [some 5] :: [some n] :: rest) = ({ t with pen := setExt t.pen which (.idx n) } : Term).sgr rest := by
+  unfold sgr
+  simp only [List.length_cons]
+  rw [applySgr_step]
+  simp only [sgrStep, hw, if_true, hn]
+  exact applySgr_fuel _ _ _ _ (by omega) (by omega)
+
+/-- `38;2;r;g;b` (48, 58 alike) inside a longer parameter list -/
+theorem sgr_cons_ext2 (t : Term) (which r g b : Nat) (rest : List Param)
+    (hw : which = 38 ∨ which = 48 ∨ which = 58) (hr : r ≤ 255) (hg : g ≤ 255) (hb : b ≤ 255) :
+    t.sgr ([some which] :: [some 2] :: [some r] :: [some g] :: [some b] :: rest) =
+      ({ t with pen := setExt t.pen which (.rgb r g b) } : Term).sgr rest := by
+  have hc : colorOk (.rgb r g b) = true := by simp [colorOk, hr, hg, hb]
+  unfold sgr
+  simp only [List.length_cons]
+  rw [applySgr_step]
+  simp only [sgrStep, hw, if_true, hc]
+  exact applySgr_fuel _ _ _ _ (by omega) (by omega)
+
+@[simp] theorem sgr_nil (t : Term) : t.sgr [] = t := by simp [sgr, applySgr]
+
+/-- `ESC [ p1 ; p2 m` with two plain numeric parameters is the two SGRs one after the other
+    (`setfgbg` of the 8/16-colour entries) -/
+theorem sgr_two_effect (t : Term) (hst : t.st = .ground) (a b : Nat) (ha : a ≠ 38 ∧ a ≠ 48 ∧ a ≠ 58) :
+    t.feed (csiSeq (dec a ++ 0x3b :: dec b) 0x6d) = (t.sgr [[some a]]).sgr [[some b]] := by
+  have hps : parseParams (dec a ++ 0x3b :: dec b) = some ([[some a]] ++ [[some b]]) :=
+    parseParams_append _ _ _ _ (by rw [parseParams_last _ (semi_not_mem_dec _), parseParam_dec]; rfl)
+      (by rw [parseParams_last _ (semi_not_mem_dec _), parseParam_dec]; rfl)
+  have hbody : ∀ x ∈ dec a ++ 0x3b :: dec b, (48 ≤ x ∧ x ≤ 57) ∨ x = 0x3b ∨ x = 0x3a := by
+    intro x hx
+    rcases List.mem_append.mp hx with h | h
+    · exact numeric_dec _ x h
+    · rcases List.mem_cons.mp h with h | h
+      · exact Or.inr (Or.inl h)
+      · exact numeric_dec _ x h
+  rw [feed_csi_plain t hst _ 0x6d _ hbody (by omega) hps]
+  have : dispatchPlain t ([[some a]] ++ [[some b]]) 0x6d = t.sgr ([some a] :: [[some b]]) := by simp [dispatchPlain]
+  rw [this, sgr_cons t [some a] [[some b]] (by
+    refine ⟨?_, ?_, ?_⟩ <;> intro h <;> simp at h <;> omega)]
+
+end Term
+
+/-! ## private modes, colon forms, OSC, the last column -/
+
+theorem parseCsiBody_private (body : List Nat) (h : ∀ b ∈ body, (48 ≤ b ∧ b ≤ 57) ∨ b = 0x3b ∨ b = 0x3a) :
+    parseCsiBody (0x3f :: body) = (parseParams body).map fun ps => { priv := 0x3f, params := ps, inter := [] } := by
+  have hp : ∀ b ∈ body, isParamByte b = true := by
+    intro b hb
+    rcases h b hb with h1 | h1 | h1
+    · simp [isParamByte]; omega
+    · subst h1; decide
+    · subst h1; decide
+  have ht : body.takeWhile isParamByte = body := takeWhile_all _ _ hp
+  have hd : body.dropWhile isParamByte = [] := dropWhile_all _ _ hp
+  simp [parseCsiBody, ht, hd]
+  cases parseParams body <;> simp
+
+namespace Term
+
+/-- **DECSET** `ESC [ ? n h` -/
+theorem decset_effect (t : Term) (hst : t.st = .ground) (n : Nat) :
+    t.feed (csiSeq (0x3f :: dec n) 0x68) = t.decMode n true := by
+  have hps : parseParams (dec n) = some [[some n]] := by
+    rw [parseParams_last _ (semi_not_mem_dec _), parseParam_dec]; rfl
+  rw [feed_csi t hst _ 0x68 (fun b hb => by
+    rcases List.mem_cons.mp hb with h | h
+    · omega
+    · have := dec_digits n b h; omega) (by omega)]
+  simp [dispatchCsi, parseCsiBody_private _ (numeric_dec n), hps, eachParam]
+
+/-- **DECRST** `ESC [ ? n l` -/
+theorem decrst_effect (t : Term) (hst : t.st = .ground) (n : Nat) :
+    t.feed (csiSeq (0x3f :: dec n) 0x6c) = t.decMode n false := by
+  have hps : parseParams (dec n) = some [[some n]] := by
+    rw [parseParams_last _ (semi_not_mem_dec _), parseParam_dec]; rfl
+  rw [feed_csi t hst _ 0x6c (fun b hb => by
+    rcases List.mem_cons.mp hb with h | h
+    · omega
+    · have := dec_digits n b h; omega) (by omega)]
+  simp [dispatchCsi, parseCsiBody_private _ (numeric_dec n), hps, eachParam]
+
+/-- the mode-changing functions keep the parser in the ground state (so effects chain) -/
+theorem decMode_st (t : Term) (n : Nat) (on : Bool) : (t.decMode n on).st = t.st := by
+  simp [decMode, apply_ite Term.st, complain, saveCursor, swapScreens, restoreCursor, eraseAll]
+
+/-- **underline style** `ESC [ 4 : s m` -/
+theorem sgr_ul_style_effect (t : Term) (hst : t.st = .ground) (s : Nat) (hs : s ≤ 5) :
+    t.feed (csiSeq (0x34 :: 0x3a :: dec s) 0x6d) = { t with pen := { t.pen with ul := s } } := by
+  have hp : parseParam ([0x34] ++ 0x3a :: dec s) = some [some 4, some s] := by
+    rw [parseParam_cons _ _ (by decide), parseParam_last _ (colon_not_mem_dec s), parseNum_dec]; rfl
+  have hps : parseParams (0x34 :: 0x3a :: dec s) = some [[some 4, some s]] := by
+    have hsemi : 0x3b ∉ (0x34 :: 0x3a :: dec s) := by
+      intro h
+      rcases List.mem_cons.mp h with h | h
+      · omega
+      · rcases List.mem_cons.mp h with h | h
+        · omega
+        · exact semi_not_mem_dec s h
+    rw [parseParams_last _ hsemi]
+    show Option.map _ (parseParam ([0x34] ++ 0x3a :: dec s)) = _
+    rw [hp]; rfl
+  have hbody : ∀ b ∈ 0x34 :: 0x3a :: dec s, (48 ≤ b ∧ b ≤ 57) ∨ b = 0x3b ∨ b = 0x3a := by
+    intro b hb
+    rcases List.mem_cons.mp hb with h | h
+    · subst h; decide
+    · rcases List.mem_cons.mp h with h | h
+      · exact Or.inr (Or.inr h)
+      · exact numeric_dec _ b h
+  rw [feed_csi_plain t hst _ 0x6d _ hbody (by omega) hps]
+  simp [dispatchPlain, sgr, applySgr, hs]
+
+/-- **colon form of the 256-colour selection** `ESC [ which : 5 : n m` (kitty `setaf`, tcell's underline colour) -/
+theorem sgr_colon_idx_effect (t : Term) (hst : t.st = .ground) (which n : Nat)
+    (hw : which = 38 ∨ which = 48 ∨ which = 58) (hn : n ≤ 255) :
+    t.feed (csiSeq (dec which ++ 0x3a :: 0x35 :: 0x3a :: dec n) 0x6d) = { t with pen := setExt t.pen which (.idx n) } := by
+  have hp : parseParam (dec which ++ 0x3a :: ([0x35] ++ 0x3a :: dec n)) = some [some which, some 5, some n] := by
+    rw [parseParam_cons _ _ (colon_not_mem_dec _), parseNum_dec, parseParam_cons _ _ (by decide),
+      parseParam_last _ (colon_not_mem_dec n), parseNum_dec]
+    rfl
+  have hsemi : 0x3b ∉ (dec which ++ 0x3a :: 0x35 :: 0x3a :: dec n) := by
+    intro h
+    simp only [List.mem_append, List.mem_cons] at h
+    rcases h with h | h | h | h | h
+    · exact semi_not_mem_dec _ h
+    · omega
+    · omega
+    · omega
+    · exact semi_not_mem_dec _ h
+  have hps : parseParams (dec which ++ 0x3a :: 0x35 :: 0x3a :: dec n) = some [[some which, some 5, some n]] := by
+    rw [parseParams_last _ hsemi]
+    show Option.map _ (parseParam (dec which ++ 0x3a :: ([0x35] ++ 0x3a :: dec n))) = _
+    rw [hp]; rfl
+  have hbody : ∀ b ∈ dec which ++ 0x3a :: 0x35 :: 0x3a :: dec n, (48 ≤ b ∧ b ≤ 57) ∨ b = 0x3b ∨ b = 0x3a := by
+    intro b hb
+    simp only [List.mem_append, List.mem_cons] at hb
+    rcases hb with h | h | h | h | h
+    · exact numeric_dec _ b h
+    · exact Or.inr (Or.inr h)
+    · subst h; decide
+    · exact Or.inr (Or.inr h)
+    · exact numeric_dec _ b h
+  rw [feed_csi_plain t hst _ 0x6d _ hbody (by omega) hps]
+  have h4 : which ≠ 4 := by omega
+  simp [dispatchPlain, sgr, applySgr, h4, hw, colonColor, colorOk, hn]
+
+/-- **colon form of direct colour with empty colour-space field** `ESC [ which : 2 : : r : g : b m` -/
+theorem sgr_colon_rgb_effect (t : Term) (hst : t.st = .ground) (which r g b : Nat)
+    (hw : which = 38 ∨ which = 48 ∨ which = 58) (hr : r ≤ 255) (hg : g ≤ 255) (hb : b ≤ 255) :
+    t.feed (csiSeq (dec which ++ 0x3a :: 0x32 :: 0x3a :: 0x3a :: (dec r ++ 0x3a :: (dec g ++ 0x3a :: dec b))) 0x6d) =
+      { t with pen := setExt t.pen which (.rgb r g b) } := by
+  have hp : parseParam (dec which ++ 0x3a :: ([0x32] ++ 0x3a :: ([] ++ 0x3a :: (dec r ++ 0x3a :: (dec g ++ 0x3a :: dec b))))) =
+      some [some which, some 2, none, some r, some g, some b] := by
+    rw [parseParam_cons _ _ (colon_not_mem_dec _), parseNum_dec, parseParam_cons _ _ (by decide),
+      parseParam_cons _ _ (by simp), parseParam_cons _ _ (colon_not_mem_dec _), parseNum_dec,
+      parseParam_cons _ _ (colon_not_mem_dec _), parseNum_dec, parseParam_last _ (colon_not_mem_dec b), parseNum_dec]
+    rfl
+  have hsemi : 0x3b ∉ (dec which ++ 0x3a :: 0x32 :: 0x3a :: 0x3a :: (dec r ++ 0x3a :: (dec g ++ 0x3a :: dec b))) := by
+    intro h
+    simp only [List.mem_append, List.mem_cons] at h
+    rcases h with h | h | h | h | h | h | h | h | h | h
+    · exact semi_not_mem_dec _ h
+    · omega
+    · omega
+    · omega
+    · omega
+    · exact semi_not_mem_dec _ h
+    · omega
+    · exact semi_not_mem_dec _ h
+    · omega
+    · exact semi_not_mem_dec _ h
+  have hps : parseParams (dec which ++ 0x3a :: 0x32 :: 0x3a :: 0x3a :: (dec r ++ 0x3a :: (dec g ++ 0x3a :: dec b))) =
+      some [[some which, some 2, none, some r, some g, some b]] := by
+    rw [parseParams_last _ hsemi]
+    show Option.map _ (parseParam (dec which ++ 0x3a :: ([0x32] ++ 0x3a :: ([] ++ 0x3a :: (dec r ++ 0x3a :: (dec g ++ 0x3a :: dec b)))))) = _
+    rw [hp]; rfl
+  have hbody : ∀ x ∈ dec which ++ 0x3a :: 0x32 :: 0x3a :: 0x3a :: (dec r ++ 0x3a :: (dec g ++ 0x3a :: dec b)),
+      (48 ≤ x ∧ x ≤ 57) ∨ x = 0x3b ∨ x = 0x3a := by
+    intro x hx
+    simp only [List.mem_append, List.mem_cons] at hx
+    rcases hx with h | h | h | h | h | h | h | h | h | h
+    · exact numeric_dec _ x h
+    · exact Or.inr (Or.inr h)
+    · subst h; decide
+    · exact Or.inr (Or.inr h)
+    · exact Or.inr (Or.inr h)
+    · exact numeric_dec _ x h
+    · exact Or.inr (Or.inr h)
+    · exact numeric_dec _ x h
+    · exact Or.inr (Or.inr h)
+    · exact numeric_dec _ x h
+  rw [feed_csi_plain t hst _ 0x6d _ hbody (by omega) hps]
+  have h4 : which ≠ 4 := by omega
+  simp [dispatchPlain, sgr, applySgr, h4, hw, colonColor, colorOk, hr, hg, hb]
+
+/-! ### OSC -/
+
+theorem feed_osc_collect (t : Term) (rev bs : List Nat)
+    (h : ∀ b ∈ bs, 0x20 ≤ b ∧ b ≠ 0x7f ∧ (b = 0x9c → t.cfg.utf8 = true ∨ t.cfg.c1Controls = false)) :
+    ({ t with st := .osc rev } : Term).feed bs = { t with st := .osc (bs.reverse ++ rev) } := by
+  induction bs generalizing rev with
+  | nil => simp
+  | cons b bs ih =>
+    have hb := h b (by simp)
+    have h1 : b ≠ 0x07 := by omega
+    have h2 : b ≠ 0x1b := by omega
+    have h3 : ¬ (b < 0x20 ∨ b = 0x7f) := by omega
+    have h4 : ¬ (b = 0x9c ∧ (!t.cfg.utf8) = true ∧ t.cfg.c1Controls = true) := by
+      intro hh
+      rcases hb.2.2 hh.1 with h5 | h5
+      · simp [h5] at hh
+      · simp [h5] at hh
+    have e : ({ t with st := .osc rev } : Term).feedByte b = { t with st := .osc (b :: rev) } := by
+      simp [feedByte, feedOsc, h1, h2, h3]
+      intro e1 hu hc
+      exact absurd ⟨e1, by simp [hu], hc⟩ h4
+    rw [feed_cons, e, ih (b :: rev) (fun x hx => h x (by simp [hx]))]
+    simp
+
+/-- `ESC ] payload ESC \` (ST-terminated) with a payload free of controls = `dispatchOsc` on the payload -/
+theorem feed_osc_st (t : Term) (hst : t.st = .ground) (payload : List Nat)
+    (h : ∀ b ∈ payload, 0x20 ≤ b ∧ b ≠ 0x7f ∧ (b = 0x9c → t.cfg.utf8 = true ∨ t.cfg.c1Controls = false)) :
+    t.feed ([0x1b, 0x5d] ++ payload ++ [0x1b, 0x5c]) = dispatchOsc t payload := by
+  have e1 : t.feedByte 0x1b = { t with st := .esc } := by simp [feedByte, hst, feedGround, c0]
+  have e2 : ({ t with st := .esc } : Term).feedByte 0x5d = { t with st := .osc [] } := by simp [feedByte, feedEsc]
+  have e3 : ∀ rev, ({ t with st := .osc rev } : Term).feedByte 0x1b = { t with st := .oscEsc rev } := by
+    intro rev; simp [feedByte, feedOsc]
+  have e4 : ∀ rev, ({ t with st := .oscEsc rev } : Term).feedByte 0x5c = dispatchOsc { t with st := .ground } rev.reverse := by
+    intro rev; simp [feedByte, feedOscEsc]
+  show t.feed (0x1b :: 0x5d :: (payload ++ [0x1b, 0x5c])) = _
+  rw [feed_cons, e1, feed_cons, e2, ← feed_append, feed_osc_collect _ _ _ h, feed_cons, e3, feed_cons, e4, feed_nil]
+  simp [with_ground t hst]
+
+/-- `ESC ] payload BEL` -/
+theorem feed_osc_bel (t : Term) (hst : t.st = .ground) (payload : List Nat)
+    (h : ∀ b ∈ payload, 0x20 ≤ b ∧ b ≠ 0x7f ∧ (b = 0x9c → t.cfg.utf8 = true ∨ t.cfg.c1Controls = false)) :
+    t.feed ([0x1b, 0x5d] ++ payload ++ [0x07]) = dispatchOsc t payload := by
+  have e1 : t.feedByte 0x1b = { t with st := .esc } := by simp [feedByte, hst, feedGround, c0]
+  have e2 : ({ t with st := .esc } : Term).feedByte 0x5d = { t with st := .osc [] } := by simp [feedByte, feedEsc]
+  have e3 : ∀ rev, ({ t with st := .osc rev } : Term).feedByte 0x07 = dispatchOsc { t with st := .ground } rev.reverse := by
+    intro rev; simp [feedByte, feedOsc]
+  show t.feed (0x1b :: 0x5d :: (payload ++ [0x07])) = _
+  rw [feed_cons, e1, feed_cons, e2, ← feed_append, feed_osc_collect _ _ _ h, feed_cons, e3, feed_nil]
+  simp [with_ground t hst]
+
+/-- **hyperlink off** `ESC ] 8 ; ; ESC \` -/
+theorem osc8_close_effect (t : Term) (hst : t.st = .ground) :
+    t.feed [0x1b, 0x5d, 0x38, 0x3b, 0x3b, 0x1b, 0x5c] = { t with linkKnown := true, pen := { t.pen with link := none } } := by
+  have := feed_osc_st t hst [0x38, 0x3b, 0x3b] (by
+    intro b hb
+    simp only [List.mem_cons, List.not_mem_nil, or_false] at hb
+    rcases hb with h | h | h <;> subst h <;> simp)
+  simp only [List.cons_append, List.nil_append] at this
+  rw [this]
+  have h1 : splitFirst [0x38, 0x3b, 0x3b] = ([0x38], some [0x3b]) := by decide
+  have h2 : splitFirst [0x3b] = ([], some []) := by decide
+  simp [dispatchOsc, h1, h2, isDigit, parseNat]
+
+/-- **hyperlink on** `ESC ] 8 ; id ; uri ESC \` for a non-empty `uri` and an `id` without `;` -/
+theorem osc8_open_effect (t : Term) (hst : t.st = .ground) (id uri : List Nat)
+    (hid : ∀ b ∈ id, 0x20 ≤ b ∧ b ≠ 0x7f ∧ b ≠ 0x3b ∧ b ≠ 0x9c)
+    (huri : ∀ b ∈ uri, 0x20 ≤ b ∧ b ≠ 0x7f ∧ b ≠ 0x9c) (hne : uri ≠ []) :
+    t.feed ([0x1b, 0x5d] ++ (0x38 :: 0x3b :: (id ++ 0x3b :: uri)) ++ [0x1b, 0x5c]) =
+      { t with linkKnown := true, pen := { t.pen with link := some (t.text id, t.text uri) } } := by
+  rw [feed_osc_st t hst _ (by
+    intro b hb
+    simp only [List.mem_cons, List.mem_append] at hb
+    rcases hb with h | h | h | h | h
+    · subst h; simp
+    · subst h; simp
+    · have := hid b h; exact ⟨this.1, this.2.1, fun e => absurd e this.2.2.2⟩
+    · subst h; simp
+    · have := huri b h; exact ⟨this.1, this.2.1, fun e => absurd e this.2.2⟩)]
+  have hloop : ∀ (l r acc : List Nat), (∀ b ∈ l, b ≠ 0x3b) →
+      List.span.loop (· != 0x3b) (l ++ 0x3b :: r) acc = (acc.reverse ++ l, 0x3b :: r) := by
+    intro l r acc hl
+    induction l generalizing acc with
+    | nil => simp [List.span.loop]
+    | cons x xs ih =>
+      have hx : x ≠ 0x3b := hl x (by simp)
+      have := ih (x :: acc) (fun b hb => hl b (by simp [hb]))
+      have hx' : (x != 0x3b) = true := by simp [hx]
+      simp [List.span.loop, hx', this]
+  have hspan : ∀ (l r : List Nat), (∀ b ∈ l, b ≠ 0x3b) → (l ++ 0x3b :: r).span (· != 0x3b) = (l, 0x3b :: r) := by
+    intro l r hl
+    simpa [List.span] using hloop l r [] hl
+  have h1 : splitFirst (0x38 :: 0x3b :: (id ++ 0x3b :: uri)) = ([0x38], some (id ++ 0x3b :: uri)) := by
+    have := hspan [0x38] (id ++ 0x3b :: uri) (by simp)
+    simp only [List.cons_append, List.nil_append] at this
+    simp [splitFirst, this]
+  have h2 : splitFirst (id ++ 0x3b :: uri) = (id, some uri) := by
+    simp [splitFirst, hspan id uri (fun b hb => (hid b hb).2.2.1)]
+  have h3 : uri.isEmpty = false := by cases uri <;> simp_all
+  simp [dispatchOsc, h1, h2, h3, isDigit, parseNat]
+
+/-! ### the last column -/
+
+/-- **a narrow ASCII glyph in the last column**: the cell is written, the cursor stays; with auto-margin a wrap
+    becomes pending -/
+theorem print_last_col_effect (t : Term) (b : Nat) (hst : t.st = .ground) (hb : 0x20 ≤ b ∧ b < 0x7f)
+    (hw : t.cfg.utf8 = true → t.cfg.rw (b : Int) = 1)
+    (hfont : t.modes.altFont = 0) (hacs : acsActive t.modes = false)
+    (hk : t.cursorKnown = true) (hpw : t.pendingWrap = false) (hirm : t.modes.insertMode = false)
+    (hx : t.cx + 1 = t.w)
+    (hc0 : (t.get t.cx t.cy).cont = false) :
+    t.feedByte b =
+      { t with
+        grid := t.grid.set t.cx t.cy (t.glyphCell b)
+        pendingWrap := t.modes.autoMargin
+        last := some (t.cx, t.cy, t.cx, t.cy, t.modes.autoMargin) } := by
+  have hwd : t.widthOf (b : Int) = 1 := by
+    unfold widthOf
+    cases hu : t.cfg.utf8 with
+    | false => simp
+    | true => simp [hw hu]
+  have h1 : ¬ b < 0x20 := by omega
+  have h2 : b ≠ 0x7f := by omega
+  have h3 : b < 0x80 := by omega
+  have hc1 : (t.grid.get (t.cx + 1) t.cy).cont = false := by
+    rw [Grid.get_out]
+    have : t.w = t.grid.w := rfl
+    omega
+  have hcl : t.grid.clobber t.blocks t.cx t.cy = t.grid := Grid.clobber_noop _ _ _ _ hc0 hc1
+  have hx' : ¬ t.cx + 1 < t.grid.w := by
+    have : t.w = t.grid.w := rfl
+    omega
+  simp [feedByte, hst, feedGround, h1, h2, h3, printByte, hfont, hacs, hwd, putGlyph, putNarrow, hk, doWrap, hpw, hirm,
+    putNarrowAt, hcl, hx']
+
+end Term
+
+/-! ## UTF-8 text, wide glyphs, combining marks -/
+
+/-- UTF-8 encoding of a code point ≥ 0x80 (reference encoder for the statements below) -/
+def utf8Enc (cp : Nat) : List Nat :=
+  if cp < 0x800 then [0xC0 + cp / 64, 0x80 + cp % 64]
+  else if cp < 0x10000 then [0xE0 + cp / 4096, 0x80 + cp / 64 % 64, 0x80 + cp % 64]
+  else [0xF0 + cp / 262144, 0x80 + cp / 4096 % 64, 0x80 + cp / 64 % 64, 0x80 + cp % 64]
+
+namespace Term
+
+/-- **decoding**: the UTF-8 bytes of a scalar value ≥ 0x80, fed to a UTF-8 terminal in the ground state, print that
+    code point (`printCp`: C1 code points are refused, everything else goes to `putGlyph` with its width) -/
+theorem feed_utf8Enc (t : Term) (hst : t.st = .ground) (hu : t.cfg.utf8 = true) (cp : Nat)
+    (hlo : 0x80 ≤ cp) (hhi : cp ≤ 0x10FFFF) (hsur : ¬ (0xD800 ≤ cp ∧ cp ≤ 0xDFFF)) :
+    t.feed (utf8Enc cp) = t.printCp cp := by
+  unfold utf8Enc
+  by_cases h2 : cp < 0x800
+  · simp only [h2, if_true, feed_cons, feed_nil]
+    have b0 : ¬ (0xC0 + cp / 64 < 0x20) := by omega
+    have b0' : 0xC0 + cp / 64 ≠ 0x7f := by omega
+    have b0'' : ¬ (0xC0 + cp / 64 < 0x80) := by omega
+    have b0r : 0xC2 ≤ 0xC0 + cp / 64 ∧ 0xC0 + cp / 64 ≤ 0xDF := by omega
+    have e1 : t.feedByte (0xC0 + cp / 64) = { t with st := .utf8 1 (cp / 64) 0x80 } := by
+      simp [feedByte, hst, feedGround, b0, b0', b0'', hu, b0r]
+    have c1 : 0x80 ≤ 0x80 + cp % 64 ∧ 0x80 + cp % 64 < 0xC0 := by omega
+    have acc : cp / 64 * 64 + cp % 64 = cp := by omega
+    have ok : ¬ (cp < 0x80 ∨ 0x10FFFF < cp ∨ (0xD800 ≤ cp ∧ cp ≤ 0xDFFF)) := by omega
+    rw [e1]
+    simp [feedByte, feedUtf8, c1, acc, ok, with_ground t hst]
+  · by_cases h3 : cp < 0x10000
+    · simp only [h2, h3, if_true, if_false, feed_cons, feed_nil]
+      have b0 : ¬ (0xE0 + cp / 4096 < 0x20) := by omega
+      have b0' : 0xE0 + cp / 4096 ≠ 0x7f := by omega
+      have b0'' : ¬ (0xE0 + cp / 4096 < 0x80) := by omega
+      have b0n : ¬ (0xC2 ≤ 0xE0 + cp / 4096 ∧ 0xE0 + cp / 4096 ≤ 0xDF) := by omega
+      have b0r : 0xE0 ≤ 0xE0 + cp / 4096 ∧ 0xE0 + cp / 4096 ≤ 0xEF := by omega
+      have e1 : t.feedByte (0xE0 + cp / 4096) = { t with st := .utf8 2 (cp / 4096) 0x800 } := by
+        simp [feedByte, hst, feedGround, b0, b0', b0'', hu, b0n, b0r]
+      have c1 : 0x80 ≤ 0x80 + cp / 64 % 64 ∧ 0x80 + cp / 64 % 64 < 0xC0 := by omega
+      have c2 : 0x80 ≤ 0x80 + cp % 64 ∧ 0x80 + cp % 64 < 0xC0 := by omega
+      have acc1 : cp / 4096 * 64 + cp / 64 % 64 = cp / 64 := by omega
+      have acc2 : cp / 64 * 64 + cp % 64 = cp := by omega
+      have ok : ¬ (cp < 0x800 ∨ 0x10FFFF < cp ∨ (0xD800 ≤ cp ∧ cp ≤ 0xDFFF)) := by omega
+      rw [e1]
+      simp [feedByte, feedUtf8, c1, c2, acc1, acc2, ok, with_ground t hst]
+    · simp only [h2, h3, if_false, feed_cons, feed_nil]
+      have b0 : ¬ (0xF0 + cp / 262144 < 0x20) := by omega
+      have b0' : 0xF0 + cp / 262144 ≠ 0x7f := by omega
+      have b0'' : ¬ (0xF0 + cp / 262144 < 0x80) := by omega
+      have b0n : ¬ (0xC2 ≤ 0xF0 + cp / 262144 ∧ 0xF0 + cp / 262144 ≤ 0xDF) := by omega
+      have b0m : ¬ (0xE0 ≤ 0xF0 + cp / 262144 ∧ 0xF0 + cp / 262144 ≤ 0xEF) := by omega
+      have b0r : 0xF0 ≤ 0xF0 + cp / 262144 ∧ 0xF0 + cp / 262144 ≤ 0xF4 := by omega
+      have e1 : t.feedByte (0xF0 + cp / 262144) = { t with st := .utf8 3 (cp / 262144) 0x10000 } := by
+        simp [feedByte, hst, feedGround, b0, b0', b0'', hu, b0n, b0m, b0r]
+      have c1 : 0x80 ≤ 0x80 + cp / 4096 % 64 ∧ 0x80 + cp / 4096 % 64 < 0xC0 := by omega
+      have c2 : 0x80 ≤ 0x80 + cp / 64 % 64 ∧ 0x80 + cp / 64 % 64 < 0xC0 := by omega
+      have c3 : 0x80 ≤ 0x80 + cp % 64 ∧ 0x80 + cp % 64 < 0xC0 := by omega
+      have acc1 : cp / 262144 * 64 + cp / 4096 % 64 = cp / 4096 := by omega
+      have acc2 : cp / 4096 * 64 + cp / 64 % 64 = cp / 64 := by omega
+      have acc3 : cp / 64 * 64 + cp % 64 = cp := by omega
+      have ok : ¬ (cp < 0x10000 ∨ 0x10FFFF < cp ∨ (0xD800 ≤ cp ∧ cp ≤ 0xDFFF)) := by omega
+      rw [e1]
+      simp [feedByte, feedUtf8, c1, c2, c3, acc1, acc2, acc3, ok, with_ground t hst]
+
+/-- **a narrow glyph** (any code point) away from the last column -/
+theorem putNarrow_effect (t : Term) (cp : Int)
+    (hk : t.cursorKnown = true) (hpw : t.pendingWrap = false) (hirm : t.modes.insertMode = false)
+    (hx : t.cx + 1 < t.w)
+    (hc0 : (t.get t.cx t.cy).cont = false) (hc1 : (t.get (t.cx + 1) t.cy).cont = false) :
+    t.putNarrow cp =
+      { t with
+        grid := t.grid.set t.cx t.cy (t.glyphCell cp)
+        cx := t.cx + 1
+        last := some (t.cx, t.cy, t.cx + 1, t.cy, false) } := by
+  have hcl : t.grid.clobber t.blocks t.cx t.cy = t.grid := Grid.clobber_noop _ _ _ _ hc0 hc1
+  have hxg : t.cx + 1 < t.grid.w := hx
+  simp [putNarrow, hk, doWrap, hpw, hirm, putNarrowAt, hcl, hxg]
+
+/-- **a wide glyph** that fits with room to spare: two cells (glyph + continuation), the cursor advances by two -/
+theorem putWide_effect (t : Term) (cp : Int)
+    (hk : t.cursorKnown = true) (hpw : t.pendingWrap = false) (hirm : t.modes.insertMode = false)
+    (hx : t.cx + 2 < t.w)
+    (hc0 : (t.get t.cx t.cy).cont = false) (hc1 : (t.get (t.cx + 1) t.cy).cont = false)
+    (hc2 : (t.get (t.cx + 2) t.cy).cont = false) :
+    t.putWide cp =
+      { t with
+        grid := (t.grid.set t.cx t.cy (t.glyphCell cp)).set (t.cx + 1) t.cy { t.glyphCell cp with runes := [], cont := true }
+        cx := t.cx + 2
+        last := some (t.cx, t.cy, t.cx + 2, t.cy, false) } := by
+  have hcl : t.grid.clobber t.blocks t.cx t.cy = t.grid := Grid.clobber_noop _ _ _ _ hc0 hc1
+  have hxg : t.cx + 2 < t.grid.w := hx
+  have hfit : ¬ t.grid.w < t.cx + 2 := by omega
+  have g1 : ((t.grid.set t.cx t.cy (t.glyphCell cp)).get (t.cx + 1) t.cy).cont = false := by
+    rw [Grid.get_set_other _ _ _ _ _ _ (by omega)]; exact hc1
+  have g2 : ((t.grid.set t.cx t.cy (t.glyphCell cp)).get (t.cx + 1 + 1) t.cy).cont = false := by
+    rw [Grid.get_set_other _ _ _ _ _ _ (by omega)]; exact hc2
+  have hcl2 : (t.grid.set t.cx t.cy (t.glyphCell cp)).clobber t.blocks (t.cx + 1) t.cy = t.grid.set t.cx t.cy (t.glyphCell cp) :=
+    Grid.clobber_noop _ _ _ _ g1 g2
+  simp [putWide, hk, doWrap, hpw, hirm, w, hfit, putWideAt, hcl, hcl2, hxg]
+
+/-- **a combining mark right after a glyph**: it joins the cell of that glyph, the cursor does not move -/
+theorem putCombining_effect (t : Term) (cp : Int) (x y : Nat)
+    (hk : t.cursorKnown = true) (hl : t.last = some (x, y, t.cx, t.cy, t.pendingWrap)) :
+    t.putCombining cp =
+      { t with grid := t.grid.set x y { t.grid.get x y with
+                 runes := (if (t.grid.get x y).runes.isEmpty then [32] else (t.grid.get x y).runes) ++ [cp], stamp := t.blocks } } := by
+  simp [putCombining, hk, hl, addMark]
+
+end Term
+
+/-! ## SGR never touches the parser state, the cursor or the grid (so effects chain) -/
+
+namespace Term
+
+/-- what SGR may change: pen, `penKnown`, the font selection in `modes`, complaints -/
+def SgrFrame (t t' : Term) : Prop :=
+  t'.st = t.st ∧ t'.cx = t.cx ∧ t'.cy = t.cy ∧ t'.pendingWrap = t.pendingWrap ∧ t'.grid = t.grid ∧ t'.other = t.other ∧
+  t'.cursorKnown = t.cursorKnown ∧ t'.linkKnown = t.linkKnown ∧ t'.pen.link = t.pen.link ∧ t'.blocks = t.blocks ∧ t'.last = t.last
+
+theorem SgrFrame.refl (t : Term) : SgrFrame t t := by simp [SgrFrame]
+
+theorem SgrFrame.trans {a b c : Term} (h1 : SgrFrame a b) (h2 : SgrFrame b c) : SgrFrame a c := by
+  obtain ⟨a1, a2, a3, a4, a5, a6, a7, a8, a9, a10, a11⟩ := h1
+  obtain ⟨b1, b2, b3, b4, b5, b6, b7, b8, b9, b10, b11⟩ := h2
+  exact ⟨b1.trans a1, b2.trans a2, b3.trans a3, b4.trans a4, b5.trans a5, b6.trans a6, b7.trans a7, b8.trans a8,
+    b9.trans a9, b10.trans a10, b11.trans a11⟩
+
+theorem sgrSimple_link (p p' : Pen) (n : Nat) (h : sgrSimple p n = some p') : p'.link = p.link := by
+  have key : ((sgrSimple p n).map (fun q => q.link)).getD p.link = p.link := by
+    simp [sgrSimple, apply_ite (Option.map (fun q : Pen => q.link)),
+      apply_ite (fun o : Option (Option (String × String)) => o.getD p.link)]
+  rw [h] at key
+  simpa using key
+
+theorem setExt_link (p : Pen) (w : Nat) (c : ColorSel) : (setExt p w c).link = p.link := by
+  unfold setExt; split
+  · rfl
+  · split <;> rfl
+
+theorem sgrStep_frame (k : List Param → Term → Term) (p : Param) (rest : List Param) (t : Term)
+    (hk : ∀ r2 t', SgrFrame t' (k r2 t')) : SgrFrame t (sgrStep k p rest t) := by
+  have K : ∀ r2 t', SgrFrame t t' → SgrFrame t (k r2 t') := fun r2 t' h => h.trans (hk r2 t')
+  have C : ∀ msg, SgrFrame t (t.complain msg) := fun msg => by simp [SgrFrame, complain]
+  unfold sgrStep
+  split
+  · exact K _ _ (by simp [SgrFrame])
+  · exact K _ _ (by simp [SgrFrame])
+  · split
+    · split
+      · split
+        · exact K _ _ (by simp [SgrFrame, setExt_link])
+        · exact K _ _ (C _)
+      · split
+        · exact K _ _ (by simp [SgrFrame, setExt_link])
+        · exact K _ _ (C _)
+      · exact C _
+    · split
+      · exact K _ _ (by simp [SgrFrame])
+      · split
+        · exact K _ _ (by simp [SgrFrame])
+        · split
+          · rename_i p' hp'
+            exact K _ _ (by simp [SgrFrame, sgrSimple_link _ _ _ hp'])
+          · exact K _ _ (C _)
+  · split
+    · split
+      · split
+        · exact K _ _ (by simp [SgrFrame])
+        · exact K _ _ (C _)
+      · exact K _ _ (C _)
+    · split
+      · split
+        · split
+          · exact K _ _ (by simp [SgrFrame, setExt_link])
+          · exact K _ _ (C _)
+        · exact K _ _ (C _)
+      · exact K _ _ (C _)
+  · exact K _ _ (C _)
+
+theorem applySgr_frame : ∀ (f : Nat) (ps : List Param) (t : Term), SgrFrame t (applySgr f ps t) := by
+  intro f
+  induction f with
+  | zero => intro ps t; cases ps <;> exact SgrFrame.refl t
+  | succ f ih =>
+    intro ps t
+    cases ps with
+    | nil => exact SgrFrame.refl t
+    | cons p rest =>
+      rw [applySgr_step]
+      exact sgrStep_frame _ _ _ _ (fun r2 t' => ih r2 t')
+
+/-- SGR changes nothing but the pen (never its hyperlink), `penKnown`, the font selection and the complaints -/
+theorem sgr_frame (t : Term) (ps : List Param) : SgrFrame t (t.sgr ps) := applySgr_frame _ _ _
+
+theorem sgr_st (t : Term) (ps : List Param) : (t.sgr ps).st = t.st := (sgr_frame t ps).1
 
 end Term
 
